@@ -1119,7 +1119,8 @@ class Unit:
         return out
 
     def drop_iter_generics(self, toks):
-        """R4: `fn f<I, ..>(.. data: &I ..) where for<'a> &'a I: IntoIterator<Item = &'a X>, ..` -> data: &Vec<X>.
+        """R4: `fn f<I, ..>(.. data: &I ..) where for<'a> &'a I: IntoIterator<Item = &'a X>, ..` -> data: &Vec<X>
+        (and `iter: I where I: IntoIterator<Item = X>` -> iter: Vec<X>).
         Removes the iterable parameters from the generic list and their predicates from the where clause;
         other generic parameters / predicates are kept verbatim."""
         parts = find_fn_parts(toks)
@@ -1130,9 +1131,14 @@ class Unit:
         wtxt = text_of(toks[w:b])
         pred = r"for\s*<\s*'\w+\s*>\s*&\s*'\w+\s+(\w+)\s*:\s*IntoIterator\s*<\s*Item\s*=\s*&\s*'\w+\s+(\w+|\([^)]*\))\s*>\s*,?"
         params = re.findall(pred, wtxt)
-        if not params:
+        # by-value iterable `I: IntoIterator<Item = X>` (consumed by a `for` loop) -> Vec<X> as well
+        pred2 = r"\b(\w+)\s*:\s*IntoIterator\s*<\s*Item\s*=\s*(\w+)\s*>\s*,?"
+        wtxt_wo = re.sub(pred, "", wtxt)
+        params2 = re.findall(pred2, wtxt_wo)
+        if not params and not params2:
             return toks, {}
-        rest = re.sub(pred, "", wtxt)
+        params = list(params) + list(params2)
+        rest = re.sub(pred2, "", re.sub(pred, "", wtxt))
         rest_body = rest.replace("where", "", 1).strip()
         names = [p_[0] for p_ in params]
         if parts["gen_open"] is None:
